@@ -142,6 +142,31 @@ impl Footer for RecFooter {
     }
 }
 
+/// a footer type whose decode -> encode is not the identity on bytes: surrounding ASCII spaces are dropped when
+/// decoding (like a typed JSON footer that ignores whitespace). Recording, like `RecFooter`.
+pub struct TrimFooter(pub Vec<u8>);
+
+impl Footer for TrimFooter {
+    fn encode(&self, mut w: impl WriteBytes) -> Result<(), BoxErr> {
+        callback();
+        ENV.with(|e| e.borrow_mut().events.push(Event::FooterEncode));
+        w.write(&self.0);
+        Ok(())
+    }
+    fn decode(f: &[u8]) -> Result<Self, BoxErr> {
+        callback();
+        ENV.with(|e| e.borrow_mut().events.push(Event::FooterDecode(f.to_vec())));
+        let mut t = f;
+        while let [b' ', rest @ ..] = t {
+            t = rest;
+        }
+        while let [rest @ .., b' '] = t {
+            t = rest;
+        }
+        Ok(TrimFooter(t.to_vec()))
+    }
+}
+
 /// recording validator over `Rec`
 pub struct RecValidator;
 impl Validate for RecValidator {
